@@ -17,4 +17,4 @@ one() {
   echo "$name -> $res"
 }
 export -f one
-ls -d seeded/*/ | sed 's,/$,,' | grep -E "$filter" | xargs -P $jobs -I{} bash -c "one {} $mode"
+ls -d seeded/*/ | sed 's,/$,,' | grep -E "$filter" | while read d; do grep -q '"neutralised"' $d/meta.json 2>/dev/null || echo $d; done | xargs -P $jobs -I{} bash -c "one {} $mode"
